@@ -174,6 +174,66 @@ func (r *pqRun) expectCols(props []string, sig, q string, want []uint64) {
 
 func pqTS(t time.Time) string { return t.Format("2006-01-02T15:04") }
 
+// topnPlacement: a scripted TopN(n=1) case in which the largest row is the top row of
+// one shard only and owes its total to a second shard, laid over the three shards in all
+// six ways so that, whatever the placement, some node serves two of the shards for
+// another coordinator.  Demanded is only what C17 states: every node of the 3-node
+// cluster reports the count the 1-node cluster reports.
+func (r *pqRun) topnPlacement(t *testing.T) {
+	perms := [][3]uint64{{0, 1, 2}, {0, 2, 1}, {1, 0, 2}, {1, 2, 0}, {2, 0, 1}, {2, 1, 0}}
+	for pi, p := range perms {
+		fld := fmt.Sprintf("tp%d", pi)
+		for _, cl := range []test.Cluster{r.c1, r.c3} {
+			cl.CreateField(t, "i", pilosa.IndexOptions{}, fld, pilosa.OptFieldTypeSet(pilosa.CacheTypeRanked, 100))
+		}
+		a, b, c := p[0]*pqSW, p[1]*pqSW, p[2]*pqSW
+		// shard A: row 1 x7; shard B: row 2 x8, row 1 x3; shard C: row 3 x7, row 2 x6
+		var sets []string
+		for i := uint64(0); i < 8; i++ {
+			if i < 7 {
+				sets = append(sets, fmt.Sprintf("Set(%d, %s=1)", a+10+i, fld), fmt.Sprintf("Set(%d, %s=3)", c+10+i, fld))
+			}
+			sets = append(sets, fmt.Sprintf("Set(%d, %s=2)", b+10+i, fld))
+			if i < 3 {
+				sets = append(sets, fmt.Sprintf("Set(%d, %s=1)", b+30+i, fld))
+			}
+			if i < 6 {
+				sets = append(sets, fmt.Sprintf("Set(%d, %s=2)", c+30+i, fld))
+			}
+		}
+		r.seq = []string{fmt.Sprintf("field %s: shard %d: row 1 x7; shard %d: row 2 x8, row 1 x3; shard %d: row 3 x7, row 2 x6", fld, p[0], p[1], p[2])}
+		for _, q := range sets {
+			for _, node := range []*test.Command{r.c1[0], r.c3[0]} {
+				if _, err := node.API.Query(context.Background(), &pilosa.QueryRequest{Index: "i", Query: q}); err != nil {
+					r.fail([]string{"C17"}, "write-error-3node", q+": "+err.Error())
+				}
+			}
+		}
+		for _, n := range []int{1, 2} {
+			q := fmt.Sprintf("TopN(%s, n=%d)", fld, n)
+			var want []int
+			for ni, node := range []*test.Command{r.c1[0], r.c3[0], r.c3[1], r.c3[2]} {
+				r.evals++
+				resp, err := node.API.Query(context.Background(), &pilosa.QueryRequest{Index: "i", Query: q})
+				if err != nil {
+					r.fail([]string{"C17"}, "query-error:TopN", fmt.Sprintf("%s: %v", q, err))
+					continue
+				}
+				ps, _ := resp.Results[0].([]pilosa.Pair)
+				var got []int
+				for _, pr := range ps {
+					got = append(got, int(pr.Count))
+				}
+				if ni == 0 {
+					want = got
+				} else if !reflect.DeepEqual(got, want) {
+					r.fail([]string{"C17"}, "topn-n-placement", fmt.Sprintf("%s: the 1-node cluster reports counts %v, node %d of the 3-node cluster reports %v", q, want, ni-1, got))
+				}
+			}
+		}
+	}
+}
+
 func (r *pqRun) checkAll(m *pqModel, rng *rand.Rand) {
 	// ---- set algebra (C15) ----
 	rowSet := func(row uint64) map[uint64]bool { return m.s[row] }
@@ -976,7 +1036,24 @@ func (r *pqRun) round(rng *rand.Rand, writes int) {
 					row, c = x.r, x.c
 				}
 			}
-			r.write(fmt.Sprintf("Clear(%d, t=%d)", c, row))
+			if rng.Intn(3) == 0 {
+				// the clearing bulk import (no time stamps are allowed with it): it must
+				// remove the bit from every view, like Clear
+				r.seq = append(r.seq, fmt.Sprintf("Import(clear; col %d, t=%d)", c, row))
+				for _, cl := range []test.Cluster{r.c1, r.c3} {
+					if cl == nil {
+						continue
+					}
+					for _, node := range cl {
+						req := &pilosa.ImportRequest{Index: "i", Field: "t", Shard: c / pqSW, RowIDs: []uint64{row}, ColumnIDs: []uint64{c}}
+						if err := node.API.Import(context.Background(), req, pilosa.OptImportOptionsClear(true)); err != nil && !strings.Contains(err.Error(), "shard ownership") {
+							r.fail([]string{"C28"}, "import-error", fmt.Sprintf("Import(clear; col %d, t=%d): %v", c, row, err))
+						}
+					}
+				}
+			} else {
+				r.write(fmt.Sprintf("Clear(%d, t=%d)", c, row))
+			}
 			if m.t[row] != nil {
 				delete(m.t[row], c)
 				delete(m.tStd[row], c)
@@ -1031,6 +1108,9 @@ func TestRcheckPQL(t *testing.T) {
 		r.noStd = round%4 >= 2
 		r.seq = []string{fmt.Sprintf("round %d (3-node comparison: %v, time field noStandardView: %v)", round, r.c3 != nil, r.noStd)}
 		r.round(rng, 10+rng.Intn(16))
+		if r.c3 != nil && round == 0 {
+			r.topnPlacement(t)
+		}
 		key := strings.Join(r.seq, ";")
 		if !r.seen[key] {
 			r.seen[key] = true
